@@ -344,6 +344,7 @@ void ThreadPool::resizeLocked(ssize_t sn) {
     while (rings_[i].try_pop(task)) {
       DISPENSO_VERIF_EVENT("pool.drain.ring", this, i, 0);
       task();
+      workRemaining_.fetch_sub(1, std::memory_order_relaxed);
     }
     DISPENSO_VERIF_EVENT("pool.drain.ring.done", this, i, 0);
   }
@@ -352,6 +353,7 @@ void ThreadPool::resizeLocked(ssize_t sn) {
     while (stealRings_[i].try_pop(task)) {
       DISPENSO_VERIF_EVENT("pool.drain.steal", this, i, 0);
       task();
+      workRemaining_.fetch_sub(1, std::memory_order_relaxed);
     }
     DISPENSO_VERIF_EVENT("pool.drain.steal.done", this, i, 0);
   }
@@ -468,6 +470,7 @@ ThreadPool::~ThreadPool() {
     while (rings_[i].try_pop(task)) {
       DISPENSO_VERIF_EVENT("pool.drain.ring", this, i, 1);
       task();
+      workRemaining_.fetch_sub(1, std::memory_order_relaxed);
     }
     DISPENSO_VERIF_EVENT("pool.drain.ring.done", this, i, 1);
   }
@@ -476,6 +479,7 @@ ThreadPool::~ThreadPool() {
     while (stealRings_[i].try_pop(task)) {
       DISPENSO_VERIF_EVENT("pool.drain.steal", this, i, 1);
       task();
+      workRemaining_.fetch_sub(1, std::memory_order_relaxed);
     }
     DISPENSO_VERIF_EVENT("pool.drain.steal.done", this, i, 1);
   }
